@@ -341,6 +341,17 @@ func c18Random(c *core.Ctx, idx int) {
 	content, _ := Take(s)
 	for step := 0; step < 30; step++ {
 		ro := bits&roBit != 0
+		if r.Chance(1, 6) {
+			// an error left over from some earlier call says nothing about the settings: every option keeps working
+			if r.Chance(2, 3) {
+				s.SetErr(errPolicyRejects)
+				log = append(log, "SetErr(err)")
+			} else {
+				s.SetErr(nil)
+				log = append(log, "SetErr(nil)")
+			}
+			c.Count("random.left-over-error-toggles")
+		}
 		what := r.Intn(11)
 		c.Count("random.calls")
 		switch what {
@@ -662,6 +673,15 @@ func c18RandomCond(c *core.Ctx, idx int) {
 	var enc [][]string
 	for step := 0; step < 24; step++ {
 		ro := bits&roBit != 0
+		if r.Chance(1, 6) {
+			if r.Chance(2, 3) {
+				cd.SetErr(errPolicyRejects)
+				log = append(log, "SetErr(err)")
+			} else {
+				cd.SetErr(nil)
+				log = append(log, "SetErr(nil)")
+			}
+		}
 		switch r.Intn(7) {
 		case 0, 1:
 			o, mode := condOpts[r.Intn(len(condOpts))], r.Intn(3)
